@@ -17,11 +17,21 @@ def jobs(tier, seed):
         if j['cfg']['symnames'] or j['cfg']['pad'] >= 0: continue
         if tier == 'quick' and is_sweep(j): continue
         cfg = dict(j['cfg']); cfg['source'] = 0
+        if cfg['ex_group'] == 1: cfg['concname'] = 1      # (a long FREE name against the 8 names of POINT costs minutes here - the object is built twice - and is C01's subject)
         out.append({'entry': 'h_c14', 'harness': 'h_c01.cpp', 'cfg': cfg, 'name': 'api-built'})
+    # quick: the lay-out variants that only differ in how the file is READ (leading zeros, block address, record order, end marker) are
+    # represented by one each; every variant that changes what is WRITTEN (content kinds) is kept.  45 s of engine time per file (three saves,
+    # four dumps, a bigger object saved in between, 48 paths).
+    read_only_variants = ('zeros511', 'zeros512', 'zeros1+block3', 'zero_prologue', 'params_first', 'out_of_order_ids', 'sparse+reversed', 'zero_offset_terminator',
+                          'zero_offset_terminator+canonical+plain', 'zero_offset_terminator+reversed+described', 'zero_offset_terminator+reversed+plain',
+                          'zero_offset_terminator+params_first+described', 'zero_offset_terminator+params_first+plain', 'first_frame_2', 'extra_param_block', 'events3', 'desc128')
     for j in c02.jobs(tier, seed):
-        if tier == 'quick' and is_sweep(j): continue
+        if tier == 'quick' and (is_sweep(j) or j['name'] in read_only_variants): continue
         j = dict(j); j['entry'] = 'h_c14'; j['harness'] = 'h_c01.cpp'; j['cfg'] = {'source': 1}; j['variant'] = j['name']; j['name'] = 'loaded'
-        out.append(j)
+        ex = list(j['opts'].get('extras', []))
+        if len(ex) > 4:      # three saves of one file with many free parameters is the longest single job: split its extra parameters over two files
+            for part in (ex[:4], ex[4:]): out.append(dict(j, opts=dict(j['opts'], extras=part)))
+        else: out.append(j)
     out.append({'entry': 'h_c14', 'harness': 'h_c01.cpp', 'cfg': {'source': 1}, 'name': 'loaded', 'variant': 'two-free-rates', 'shape': dict(P=1, C=0, sub=0, F=1), 'lay': {},
                 'opts': {'extras': [], 'events': 0, 'symbolic_meta': False, 'analog': 'empty'}, 'two_rates': True})
     return out
